@@ -56,6 +56,58 @@ def direct_case(R, gmul, fmul, rum, pop):
     return vs, (round(gu, 9), round(fu, 9), a.population_fed)
 
 
+REP_LEVELS = ((0.4, 0.4), (1.5, 0.0), (0.0, 1.5), (3.0, 3.0))
+
+
+def representation_job(job):
+    """the same whole-number monthly supplies written as float64 arrays (what the model passes), as lists of Python ints and as
+    integer arrays (what a caller testing with round numbers passes; Food keeps what it is given): feed used, grass used and every
+    herd trajectory must be identical, and the energy credited to the herds must be covered by 0.8 x feed used + 0.6 x grass used"""
+    iso, strat, order = job
+    import numpy as np
+    out = {"v": [], "n": 0, "states": 0}
+    try:
+        need_f, need_g = herd.month0_need(iso, strat)
+        months = 6
+
+        def mk(vals, rep):
+            n = len(vals)
+            k = {"float64 array": np.array(vals, dtype=float), "int list": [int(v) for v in vals], "int64 array": np.array(vals, dtype=np.int64)}[rep]
+            return herd._Food(kcals=k, fat=np.zeros(n), protein=np.zeros(n), kcals_units="billion kcals each month",
+                              fat_units="thousand tons each month", protein_units="thousand tons each month")
+
+        def run(feed, grass, rep):
+            with common.quiet():
+                animals, fu, gu = herd._ap.main(iso, mk(feed, rep), mk(grass, rep), strat, None, remove_first_month=0,
+                                                kcals_per_head_meat_dict=herd.KCALS_PER_HEAD if order == "meat" else None)
+            traj = {a.animal_type: (np.asarray(a.population, dtype=float), np.asarray(a.population_starving_pre_slaughter, dtype=float)) for a in animals}
+            return np.asarray(fu.kcals, dtype=float), np.asarray(gu.kcals, dtype=float), traj
+        for lf, lg in REP_LEVELS:
+            feed = [float(max(1, round(lf * need_f))) if lf else 0.0] * months
+            grass = [float(max(1, round(lg * need_g))) if lg else 0.0] * months
+            ref = run(feed, grass, "float64 array")
+            for rep in ("int list", "int64 array"):
+                out["n"] += 1
+                out["states"] += months
+                got = run(feed, grass, rep)
+                key = {"iso3": iso, "strategy": strat, "order": order, "supplies": "feed %r grass %r per month written as %s" % (feed[0], grass[0], rep)}
+                rp = {"representation": [iso, strat, order]}
+                for nm, a, b in (("feed", got[0], ref[0]), ("grass", got[1], ref[1])):
+                    if a.shape != b.shape or not np.allclose(a, b, rtol=1e-12, atol=1e-12):
+                        m = int(np.argmax(np.abs(a - b))) if a.shape == b.shape else 0
+                        out["v"].append(violation(nm + "_used_matches_reference", key, "%s month %d: %s used %r when the supplies are written as %s, %r when the same numbers are float64" % (
+                            iso, m, nm, float(a[m]), rep, float(b[m])), rp))
+                for sp in ref[2]:
+                    for nm, a, b in (("head count", got[2][sp][0], ref[2][sp][0]), ("starving count", got[2][sp][1], ref[2][sp][1])):
+                        if a.shape != b.shape or not np.allclose(a, b, rtol=1e-12, atol=1e-9):
+                            out["v"].append(violation("starving_count_matches_reference", dict(key, species=sp), "%s %s: %s differs between supplies written as %s and as float64" % (iso, sp, nm, rep), rp))
+                            break
+    except Exception as e:
+        import traceback
+        return {"error": "representation %r: %r %s" % (job, e, traceback.format_exc()[-400:])}
+    return out
+
+
 def run(tier, seed):
     herd.init()
     vs = []
@@ -70,6 +122,21 @@ def run(tier, seed):
     cov, hv, errors = herd.explore("C07", tier, seed)
     if errors:
         raise RuntimeError("herd harness errors: %s" % (errors[:3],))
+    isos = herd.countries()
+    sel = ["ISL", "LUX", "USA", "IND", "WOR"] + [i for i in common.rotate(isos, seed, 6 if tier == "quick" else 40) if i not in ("ISL", "LUX", "USA", "IND", "WOR")]
+    rjobs = [(iso, strat, order) for iso in sel for strat in herd.STRATEGIES for order in ("meat", "conversion")]
+    rres = common.pmap(representation_job, rjobs, init_fn=herd.init, chunksize=2)
+    rerr = [r["error"] for r in rres if "error" in r]
+    if rerr:
+        raise RuntimeError("representation harness errors: %s" % (rerr[:2],))
+    for r in rres:
+        vs.extend(r["v"])
+        cov["executions"] += 2 * r["n"]
+        cov["states"] += r["states"]
+        cov["transitions"] += r["states"]
+        cov["traces_validated_against_impl"] += r["n"]
+    cov["supply_representations"] = {"countries": sel, "jobs": len(rjobs), "levels (feed, grass) x month-0 need, rounded to whole billions": [list(l) for l in REP_LEVELS],
+                                     "representations": ["float64 array (reference)", "list of Python ints", "int64 array"], "months": 6}
     cov["direct_calls"] = n
     cov["direct_distinct_outcomes"] = len(outs)
     cov["executions"] += n
@@ -87,6 +154,8 @@ def run(tier, seed):
 
 def replay(rp):
     herd.init()
+    if "representation" in rp:
+        return representation_job(tuple(rp["representation"])).get("v", [])
     if "direct" in rp:
         return direct_case(*rp["direct"])[0]
     return herd.replay("C07", rp)
